@@ -143,12 +143,22 @@ def gen_case(r):
         cfg["vs"] = [n for n in names if r.chance(1, 3)]
     libs = sorted({f["lib"] for f in files if f["kind"] == "ar"})
     if libs and r.chance(1, 2):
-        cfg["excl"] = r.choice(["ALL"] + [f"liba{g}.a" for g in libs])
+        names = [f"liba{g}.a" for g in libs]
+        if len(names) >= 2 and r.chance(1, 2):
+            k = r.range(2, len(names))
+            cfg["excl"] = r.shuffle(names)[:k]
+            cfg["excl_how"] = r.choice(["comma", "colon", "separate", "separate"])
+        else:
+            cfg["excl"] = r.choice(["ALL"] + names)
     return files, cfg
 
 
 def excluded(f, cfg):
-    return f["kind"] == "ar" and cfg["excl"] is not None and (cfg["excl"] == "ALL" or cfg["excl"] == f"liba{f['lib']}.a")
+    if f["kind"] != "ar" or cfg["excl"] is None:
+        return False
+    if isinstance(cfg["excl"], list):
+        return f"liba{f['lib']}.a" in cfg["excl"]
+    return cfg["excl"] == "ALL" or cfg["excl"] == f"liba{f['lib']}.a"
 
 
 def request_line(files, cfg):
@@ -234,7 +244,15 @@ def build_inputs(d, files, cfg):
     if cfg["vs"]:
         p = lu.write(os.path.join(d, "vs.txt"), "{ local: " + " ".join(symname(n) + ";" for n in cfg["vs"]) + " };\n")
         args.append(f"--version-script={p}")
-    if cfg["excl"]:
+    if isinstance(cfg["excl"], list):
+        how = cfg.get("excl_how", "comma")
+        if how == "comma":
+            args.append("--exclude-libs=" + ",".join(cfg["excl"]))
+        elif how == "colon":
+            args.append("--exclude-libs=" + ":".join(cfg["excl"]))
+        else:
+            args += [f"--exclude-libs={x}" for x in cfg["excl"]]
+    elif cfg["excl"]:
         args.append(f"--exclude-libs={cfg['excl']}")
     if cfg["strip"]:
         args.append(cfg["strip"])
@@ -383,7 +401,7 @@ def run(ctx):
         rcl, ol, el = lu.link("ld", ["-o", outl] + args, cwd=d)
         ctx.count("out-kind", cfg["out"])
         ctx.count("strip", str(cfg["strip"]))
-        ctx.count("controls", f"E{cfg['E']}-list{0 if cfg['list'] is None else 1}-vs{1 if cfg['vs'] else 0}-excl{cfg['excl'] or 0}")
+        ctx.count("controls", f"E{cfg['E']}-list{0 if cfg['list'] is None else 1}-vs{1 if cfg['vs'] else 0}-excl{('multi-' + cfg.get('excl_how', '')) if isinstance(cfg['excl'], list) else (cfg['excl'] or 0)}")
         if rc != 0:
             if rcl != 0:
                 ctx.count("outcome", "both-linkers-reject")
